@@ -529,6 +529,24 @@ pub(crate) mod verif {
         pub fn forget_node(&mut self, node_id: NodeId) {
             self.0.remove_node(node_id);
         }
+
+        /// The keyspaces the poller would synchronise for `node_id`, given the change
+        /// stamps the peer reports (`KeyspaceTracker::get_diff`).
+        pub fn plan(
+            &mut self,
+            node_id: NodeId,
+            reported: &BTreeMap<String, HLCTimestamp>,
+        ) -> Vec<String> {
+            self.0
+                .get_diff(node_id, reported)
+                .map(|keyspace| keyspace.to_string())
+                .collect()
+        }
+
+        /// What the poller records after a successful exchange of one keyspace.
+        pub fn record(&mut self, node_id: NodeId, keyspace: String, ts: HLCTimestamp) {
+            self.0.set_keyspace(node_id, keyspace, ts);
+        }
     }
 
     pub fn context<S: Storage>(
